@@ -40,6 +40,11 @@ def step_class(hist, ej):
         elif p.get("op") == "fail":
             failing.add(p.get("w"))
     if res.get("err") in ("crash", "panic"):
+        # the process died (possibly in a background goroutine, whatever the driver was doing): name the place
+        import re
+        m = re.search(r"portbase/([A-Za-z0-9_/]+\.[A-Za-z0-9_.()*]+)\(", res.get("panic") or "")
+        if m:
+            return "%s:in=%s" % (res.get("err"), m.group(1))
         return "%s:%s:%s%s%s" % (res.get("err"), name, "after-shutdown" if shut else "running",
                                  "" if inited else ":uninitialized", ":persistent" if per else "")
     where = "after-shutdown" if shut else "running"
